@@ -46,7 +46,8 @@ var startFaults = []string{
 	// the textual form of one inline data: value is one the decoder refuses (layoutsRejected: TABs, blanks,
 	// URL alphabet, no padding, percent-encoding, a media type, ...); twice, for its weight in the draw
 	"inline-layout-rejected", "inline-layout-rejected",
-	// one inline value does not begin with the bytes "data:" (white space in front, DATA:) and is taken for a file name
+	// one value looks like an inline value but is no data: URI (white space or "./" in front, another scheme):
+	// a file name by definition, outside the property (layoutsFileName)
 	"inline-unrecognised",
 }
 
@@ -147,7 +148,7 @@ func genFailCase(r *core.Rand, i int) *Case {
 	case "inline-layout-rejected":
 		c.Layouts = withLayout(c.Layouts, inlineFaultKey(c), core.Pick(r, layoutsRejected))
 	case "inline-unrecognised":
-		c.Layouts = withLayout(c.Layouts, inlineFaultKey(c), core.Pick(r, layoutsUnrecognised))
+		c.Layouts = withLayout(c.Layouts, inlineFaultKey(c), core.Pick(r, layoutsFileName))
 	}
 	genSecrets(r, c)
 	return c
